@@ -9,6 +9,7 @@ non-precedence temporal constraint.
 """
 import itertools
 import random
+from fractions import Fraction
 import z3
 from pyvc.values import *  # noqa
 from pyvc.verify import Unit
@@ -89,11 +90,15 @@ class Classification(Unit):
         cs = ctx["cs"]
         r = out[1]
         cls = st.load(r).cls
-        allp = []
-        n = z3.simplify(cs.n)
-        if not z3.is_int_value(n):
+        n = None
+        for k in range(0, eng.UNROLL + 1):
+            if not eng.feasible(st, cs.n != k):
+                n = k
+                break
+        if n is None:
+            st.oblige("length of the constraint list fixed on this path (bounded unrolling)", z3.BoolVal(False))
             return
-        allp = [is_precedence(eng, st, cs.at(i)) for i in range(n.as_long())]
+        allp = [is_precedence(eng, st, cs.at(i)) for i in range(n)]
         qual = z3.And(allp) if allp else z3.BoolVal(True)
         if cls is ordmod.TemporalConstraints:
             st.oblige("plain TemporalConstraints only if some constraint is not a precedence", z3.Not(qual))
@@ -101,6 +106,41 @@ class Classification(Unit):
             st.oblige("partial/total order only if all constraints are precedences", qual)
             st.oblige("total-order builder consulted", z3.BoolVal(bool(st.ghost["bto_called"])))
 
+
+def replay_concrete(c):
+    """native: a network with one non-precedence temporal constraint of the named shape must report neither order"""
+    from unified_planning.model.htn import Task, TaskNetwork
+    from unified_planning.environment import get_environment
+    em = get_environment().expression_manager
+    bad = []
+    for nm, mk in (("neg-lhs", lambda a, b: em.LT(a.end - 2, b.start)), ("neg-rhs", lambda a, b: em.LT(a.end, b.start - 3)),
+                   ("pos-lhs", lambda a, b: em.LT(a.end + 1, b.start)), ("start-start", lambda a, b: em.LT(a.start, b.start)),
+                   ("le", lambda a, b: em.LE(a.end, b.start)), ("end-end", lambda a, b: em.LT(a.end, b.end)),
+                   ("no-container", lambda a, b: em.LT(a.end, em.TimingExp(__import__("unified_planning").model.timing.StartTiming())))):
+        tn = TaskNetwork()
+        t = Task("t")
+        a, b = tn.add_subtask(t, ident="a"), tn.add_subtask(t, ident="b")
+        try:
+            tn.add_constraint(mk(a, b))
+            po, to = tn.partial_order(), tn.total_order()
+        except Exception as e:  # noqa
+            bad.append(f"{nm}: raised {type(e).__name__}: {e}")
+            continue
+        if po is not None or to is not None:
+            bad.append(f"{nm}: partial_order={po} total_order={to} (both must be None)")
+    tn = TaskNetwork()
+    a, b = tn.add_subtask(Task("t"), ident="a"), tn.add_subtask(Task("t"), ident="b")
+    tn.set_strictly_before(a, b)
+    if tn.partial_order() is None or tn.total_order() != ["a", "b"]:
+        bad.append(f"plain precedence: partial_order={tn.partial_order()} total_order={tn.total_order()}")
+    return {"reproduced": bool(bad), "concrete": c, "observed": bad}
+
+
+def replay_file(data):
+    return replay_concrete(data.get("concrete") or {})
+
+
+Classification.replay = lambda self, ctx, model, label: replay_concrete({"obligation": label})
 
 UNITS = [Classification()]
 
@@ -207,6 +247,9 @@ def bounded(tier, seed):
         for mk, nm in ((lambda s: em.LT(s[0].start, s[-1].start), "start<start"),
                        (lambda s: em.LE(s[0].end, s[-1].start), "end<=start"),
                        (lambda s: em.LT(s[0].end + 1, s[-1].start), "delay"),
+                       (lambda s: em.LT(s[0].end - 2, s[-1].start), "negative delay lhs"),
+                       (lambda s: em.LT(s[0].end, s[-1].start - 1), "negative delay rhs"),
+                       (lambda s: em.LT(s[0].end - Fraction(1, 2), s[-1].start - 1), "negative delays both"),
                        (lambda s: em.LT(s[0].start, s[-1].end), "start<end")):
             r = check(n, [(i, i + 1) for i in range(n - 1)], extra=mk)
             if r:
